@@ -140,6 +140,16 @@ func (s *Signature) String() string {
 	return d
 }
 
+// Validate ensures the signature holds something: one that was neither
+// created by signing nor parsed serialises as an empty string, which cannot
+// be read back.
+func (s *Signature) Validate() error {
+	if s != nil && s.jws == nil {
+		return errors.New("empty signature")
+	}
+	return nil
+}
+
 // Verify will ensure that the provided key was used to sign the
 // signature and will provide the raw data that was signed.
 func (s *Signature) Verify(key *PublicKey) ([]byte, error) {
